@@ -75,7 +75,7 @@ def r1_funnel(run, w):
     run.ob(R1, q, short(call), "a rename action constructed outside DocActions is handed straight "
            "to the gateway (no side channel)", bool(gw), fi=fn.fi, node=call)
     if gw:
-      sites[q] = fn
+      sites[q] = H.xfn(w, q, keep=KEEP)
   schema = H.python_schema(w)
   overrides = {f.qualname: key for key, f in w.override_methods().items()}
   for q in sorted(sites):
@@ -264,8 +264,9 @@ def _merge(run, w, R1, fn, site, prep_node, prep_call, overrides, schema):
     for b in n.stmt.body:
       for c in calls_in(b):
         f = c.func
+        froot = v.alias_root(f.value) if isinstance(f, ast.Attribute) else None
         if isinstance(f, ast.Attribute) and f.attr == "setdefault" and \
-            isinstance(f.value, ast.Name) and len(c.args) == 2 and H._empty_dict(c.args[1]) and \
+            isinstance(froot, ast.Name) and len(c.args) == 2 and H._empty_dict(c.args[1]) and \
             v.t(c.args[0], tm) == "_v0_0" and v.runs_for_all(n.stmt, c):
           # the chained write stores the new formula under the constant 'formula'
           for x in ast.walk(b):
@@ -273,11 +274,11 @@ def _merge(run, w, R1, fn, site, prep_node, prep_call, overrides, schema):
                 x.func.value is c and x.func.attr == "setdefault" and len(x.args) == 2 and \
                 isinstance(x.args[0], ast.Constant) and x.args[0].value == "formula" and \
                 v.t(x.args[1], tm) == "_v0_1":
-              merged_into, loop_node = f.value.id, n.id
+              merged_into, loop_node = froot.id, n.id
             if isinstance(b, ast.Assign) and isinstance(x, ast.Subscript) and x.value is c and \
                 isinstance(x.slice, ast.Constant) and x.slice.value == "formula" and \
                 v.t(b.value, tm) == "_v0_1":
-              merged_into, loop_node = f.value.id, n.id
+              merged_into, loop_node = froot.id, n.id
   run.ob(R1, q, "for col_rec, new_formula in %s.items(): <pairs>[col_rec]['formula'] = "
          "new_formula" % res, "the rewritten formula texts are merged into a set of column "
          "updates", merged_into is not None and
